@@ -531,6 +531,28 @@ func cmdCheck(args []string) int {
 		"contract_files":           p.Cons.Files,
 		"assume_clauses_in_contracts": p.Cons.NAssume,
 	}
+	// the text of every assumption made in the contracts of the functions of this run (assume / assume_result), and
+	// the package-level axioms: these are trusted, not proved
+	var assumedClauses []string
+	for _, fk := range funcsUnder {
+		c := p.Cons.ByKey[fk]
+		if c == nil {
+			continue
+		}
+		for _, cl := range c.Assumes {
+			assumedClauses = append(assumedClauses, fk+": assume "+cl.Text)
+		}
+		for _, cl := range c.AssumeResult {
+			assumedClauses = append(assumedClauses, fk+": assume_result "+cl.Text)
+		}
+		if c.Trusted {
+			assumedClauses = append(assumedClauses, fk+": trusted (contract assumed, body not verified)")
+		}
+	}
+	for _, cl := range p.Cons.Axioms {
+		assumedClauses = append(assumedClauses, "axiom "+cl.Text)
+	}
+	cov["assumed_clauses"] = assumedClauses
 	ev["coverage"] = cov
 	os.MkdirAll(filepath.Join(verifDir(), "evidence"), 0o755)
 	data, _ := json.MarshalIndent(ev, "", " ")
